@@ -36,6 +36,7 @@ import (
 	"io/ioutil"
 	"os"
 	"path/filepath"
+	"runtime/pprof"
 	"sort"
 	"strings"
 
@@ -320,7 +321,13 @@ func main() {
 	from := flag.Int("from", 0, "first line (0-based)")
 	to := flag.Int("to", -1, "one past the last line (-1: all)")
 	tmp := flag.String("tmp", "", "scratch directory (removed afterwards)")
+	prof := flag.String("cpuprofile", "", "write a CPU profile (diagnostics)")
 	flag.Parse()
+	if *prof != "" {
+		pf, _ := os.Create(*prof)
+		pprof.StartCPUProfile(pf)
+		defer pprof.StopCPUProfile()
+	}
 	if *in == "" || *outp == "" || *tmp == "" {
 		fmt.Fprintln(os.Stderr, "usage: c19 -in cases.ndjson -out obs.ndjson -tmp dir [-from i -to j]")
 		os.Exit(2)
